@@ -32,7 +32,9 @@ ANSI = re.compile(r'\x1b\[[0-9;:]*m')
 FIELDS = ['id', 'name', 'resource', 'estimate', 'spent', 'start', 'end', 'predecessors', 'successors', 'parent', 'milestone',
           'tag', 'note', 'NAME', 'Id', 'bogus', 'zzz_unknown', 'min_start',
           # names of Task members that are not data attributes: unknown fields as far as a sheet is concerned
-          'children', 'all_children', 'all_parents', 'wbs', 'clone', 'to_dict', 'print']
+          'children', 'all_children', 'all_parents', 'wbs', 'clone', 'to_dict', 'print',
+          # names whose upper-case form has another length
+          'ß', 'straße', 'ﬁeld', 'größe']
 COLORS = ['91m', '92m', '93m', '94m', '95m', '96m', '97m', '37m']
 THEME_COLORS = COLORS + [None, '']          # None / '' mean "no colour" (pjplan.utils.colored_text)
 long_text = st.text(alphabet=st.sampled_from(list('abcXYZ 0123456789_-.,;:|[]()äж中')), min_size=0, max_size=60)
@@ -46,6 +48,8 @@ def sheet_case(draw, max_tasks=8):
         cu = {}
         if draw(st.booleans()):
             cu['tag'] = draw(long_text)
+        if draw(st.integers(0, 5)) == 0:
+            cu['größe'] = draw(st.sampled_from(['XL', 'a longer size text']))
         if draw(st.integers(0, 3)) == 0:
             cu['note'] = draw(st.sampled_from(['n', 'a much longer note than its header', '']))
         if draw(st.integers(0, 5)) == 0:
@@ -191,7 +195,7 @@ def check(case, exclude=True):
                 exp = str(t.id)
             elif f == 'name':
                 exp = '   ' * level + (t.name if t.name is not None else '')
-            elif f in ('tag', 'note') and isinstance(t.__dict__.get(f), str):
+            elif f in ('tag', 'note', 'größe') and isinstance(t.__dict__.get(f), str):
                 exp = t.__dict__[f]
             if exp is not None:
                 if len(exp) > len(f):
